@@ -11,6 +11,7 @@
  *                      [--mmap 0|1] [--stride N] [--shard i/n] [--case "<fault>"]
  */
 #include "../engine/mc.h"
+#include "synth_model.h"
 #include <soundswallower/decoder.h>
 #include <soundswallower/err.h>
 #include <soundswallower/s3file.h>
@@ -21,6 +22,7 @@
 #endif
 
 static char MODELDIR_[512];
+static const char *MODELNAME = "";
 static const char *TARGET; /* file name inside the model directory */
 static char TARGET_PATH[600];
 static unsigned char *ORIG;
@@ -109,11 +111,11 @@ static void
 fault_desc(const fault_t *f, char *buf, size_t n)
 {
     switch (f->kind) {
-    case FK_MISSING: snprintf(buf, n, "model=%s file=%s mmap=%d fault=missing", MODELDIR_, TARGET, USE_MMAP); break;
-    case FK_TRUNC: snprintf(buf, n, "model=%s file=%s mmap=%d fault=truncate@%zu", MODELDIR_, TARGET, USE_MMAP, f->off); break;
-    case FK_WORD: snprintf(buf, n, "model=%s file=%s mmap=%d fault=word@%zu=0x%08x", MODELDIR_, TARGET, USE_MMAP, f->off, f->val); break;
-    case FK_FLIP: snprintf(buf, n, "model=%s file=%s mmap=%d fault=flip@%zu^0x%02x", MODELDIR_, TARGET, USE_MMAP, f->off, f->val); break;
-    default: snprintf(buf, n, "model=%s file=%s mmap=%d fault=none", MODELDIR_, TARGET, USE_MMAP);
+    case FK_MISSING: snprintf(buf, n, "model=%s file=%s mmap=%d fault=missing", MODELNAME, TARGET, USE_MMAP); break;
+    case FK_TRUNC: snprintf(buf, n, "model=%s file=%s mmap=%d fault=truncate@%zu", MODELNAME, TARGET, USE_MMAP, f->off); break;
+    case FK_WORD: snprintf(buf, n, "model=%s file=%s mmap=%d fault=word@%zu=0x%08x", MODELNAME, TARGET, USE_MMAP, f->off, f->val); break;
+    case FK_FLIP: snprintf(buf, n, "model=%s file=%s mmap=%d fault=flip@%zu^0x%02x", MODELNAME, TARGET, USE_MMAP, f->off, f->val); break;
+    default: snprintf(buf, n, "model=%s file=%s mmap=%d fault=none", MODELNAME, TARGET, USE_MMAP);
     }
 }
 
@@ -140,6 +142,16 @@ fault_parse(const char *s, fault_t *f)
     return 0;
 }
 
+/* --model synth-semi|synth-ms|synth-mixw: parameter files written by the harness (synth_model.h), so that the loaders
+ * the bundled models never select (s2_semi_mgau, ms_mgau/ms_senone, ptm_mgau from mixture_weights) meet damaged files */
+static int SYNTH_MS, SYNTH;
+static void
+synth_cleanup(void)
+{
+    if (SYNTH && !mc_child_mode)
+        rm_model(MODELDIR_);
+}
+
 /* ---------- decoder attempt + probe ---------- */
 static decoder_t *
 try_init(void)
@@ -150,6 +162,8 @@ try_init(void)
     config_set_str(cfg, "dict", DICT_PATH);
     config_set_str(cfg, "loglevel", "FATAL");
     config_set_bool(cfg, "mmap", USE_MMAP);
+    if (SYNTH_MS)
+        config_set_str(cfg, "senmgau", ".semi.");
     if (FEATPARAMS_PATH[0])
         config_set_str(cfg, "featparams", FEATPARAMS_PATH);
     if (LDA_PATH[0])
@@ -302,6 +316,18 @@ main(int argc, char **argv)
     sscanf(mc_arg(argc, argv, "--shard", "0/1"), "%d/%d", &shard, &nshard);
     USE_MMAP = atoi(mc_arg(argc, argv, "--mmap", "1"));
     snprintf(MODELDIR_, sizeof MODELDIR_, REPOROOT "/model/%s", model);
+    MODELNAME = model;
+    if (strncmp(model, "synth-", 6) == 0) {
+        snprintf(MODELDIR_, sizeof MODELDIR_, "%s.%d.model", getenv("MC_OUT") ? getenv("MC_OUT") : "/var/tmp/mc_modelfault", (int)getpid());
+        rm_model(MODELDIR_);
+        if (gen_model(MODELDIR_, model + 6) < 0) {
+            fprintf(stderr, "cannot write the synthetic model in %s\n", MODELDIR_);
+            return 2;
+        }
+        SYNTH = 1;
+        SYNTH_MS = strcmp(model, "synth-ms") == 0;
+        atexit(synth_cleanup);
+    }
     {
         const char *out = getenv("MC_OUT");
         snprintf(DICT_PATH, sizeof DICT_PATH, "%s.%d.dic", out ? out : "/var/tmp/mc_modelfault", (int)getpid());
